@@ -39,12 +39,15 @@ type Cycle struct {
 }
 
 type History struct {
-	Chunk      int     `json:"chunk"`
-	Struct     bool    `json:"struct"`
-	AutoClear  bool    `json:"auto_clear"`
-	AutoClean  bool    `json:"auto_clean,omitempty"`
-	Concurrent bool    `json:"concurrent"`
-	Cycles     []Cycle `json:"cycles"`
+	Chunk      int  `json:"chunk"`
+	Struct     bool `json:"struct"`
+	AutoClear  bool `json:"auto_clear"`
+	AutoClean  bool `json:"auto_clean,omitempty"`
+	Concurrent bool `json:"concurrent"`
+	// Recover: when a cycle ends with an error from the sorter (only possible under injected faults),
+	// call Clear and, if that succeeds, carry on with the next cycle
+	Recover bool    `json:"recover,omitempty"`
+	Cycles  []Cycle `json:"cycles"`
 }
 
 // Err is a model violation found while running a history.
@@ -144,6 +147,7 @@ func (s *Sorter) Pull() (item, error) {
 // Event reports what a run observed (for classification and for C13).
 type Outcome struct {
 	Spilled    []bool // per cycle: did the cycle spill to disk (pushes >= chunk)
+	Recovered  int    // cycles after which Clear was called because the sorter had returned an error
 	FirstError error  // first error returned by Push/Finalise/Pull (nil if none)
 	ErrorAt    string
 	Delivered  [][]int // per cycle: keys pulled, in order
@@ -162,13 +166,43 @@ func Run(h History, s *Sorter, tolerateErrors bool) (Outcome, *Err) {
 func RunWith(h History, s *Sorter, tolerateErrors bool, mark func(string) *Err) (Outcome, *Err) {
 	var out Outcome
 	fail := func(where string, err error) (Outcome, *Err) {
-		out.FirstError, out.ErrorAt = err, where
+		if out.FirstError == nil {
+			out.FirstError, out.ErrorAt = err, where
+		}
 		if tolerateErrors {
 			return out, nil
 		}
 		return out, errf("unexpected-error", "%s: %v", where, err)
 	}
-	for ci, c := range h.Cycles {
+	for ci := range h.Cycles {
+		o, e, erred := runCycle(h, s, ci, &out, fail, mark)
+		if e != nil {
+			return o, e
+		}
+		if erred {
+			if !(h.Recover && tolerateErrors && ci < len(h.Cycles)-1) {
+				return out, nil
+			}
+			if err := s.M.Clear(); err != nil {
+				return out, nil // the sorter says it cannot be reused: nothing more is claimed
+			}
+			out.Recovered++
+		}
+	}
+	return out, nil
+}
+
+// runCycle runs cycle ci; erred reports that the sorter returned an error (tolerated).
+func runCycle(h History, s *Sorter, ci int, outp *Outcome, fail func(string, error) (Outcome, *Err), mark func(string) *Err) (Outcome, *Err, bool) {
+	out := *outp
+	defer func() { *outp = out }()
+	erredOut := func(where string, err error) (Outcome, *Err, bool) {
+		o, e := fail(where, err)
+		out.FirstError, out.ErrorAt = o.FirstError, o.ErrorAt
+		return out, e, true
+	}
+	{
+		c := h.Cycles[ci]
 		// AutoClean removes the whole directory when a drain completes, so it is only
 		// switched on for the last cycle of a history
 		s.M.AutoClean = h.AutoClean && ci == len(h.Cycles)-1
@@ -189,26 +223,26 @@ func RunWith(h History, s *Sorter, tolerateErrors bool, mark func(string) *Err) 
 				}
 			}
 			if err := s.Push(it); err != nil {
-				return fail(fmt.Sprintf("cycle %d push %d", ci, i), err)
+				return erredOut(fmt.Sprintf("cycle %d push %d", ci, i), err)
 			}
 			pushed[it]++
 			if got := s.M.Len(); got != int64(i+1) {
-				return out, errf("len", "cycle %d: Len() = %d after %d pushes", ci, got, i+1)
+				return out, errf("len", "cycle %d: Len() = %d after %d pushes", ci, got, i+1), false
 			}
 			if got := s.M.Pos(); got != int64(i+1) {
-				return out, errf("pos", "cycle %d: Pos() = %d after %d pushes", ci, got, i+1)
+				return out, errf("pos", "cycle %d: Pos() = %d after %d pushes", ci, got, i+1), false
 			}
 		}
 		if err := s.M.Finalise(); err != nil {
-			return fail(fmt.Sprintf("cycle %d finalise", ci), err)
+			return erredOut(fmt.Sprintf("cycle %d finalise", ci), err)
 		}
 		if mark != nil {
 			if e := mark("finalise-returned"); e != nil {
-				return out, e
+				return out, e, false
 			}
 		}
 		if got := s.M.Len(); got != int64(len(c.Keys)) {
-			return out, errf("len", "cycle %d: Len() = %d after Finalise, %d values were pushed", ci, got, len(c.Keys))
+			return out, errf("len", "cycle %d: Len() = %d after Finalise, %d values were pushed", ci, got, len(c.Keys)), false
 		}
 		want := c.Pull
 		if want < 0 || want > len(c.Keys) {
@@ -219,7 +253,7 @@ func RunWith(h History, s *Sorter, tolerateErrors bool, mark func(string) *Err) 
 		drained := false
 		for pulled < want {
 			if got := s.M.Pos(); got != int64(pulled) {
-				return out, errf("pos", "cycle %d: Pos() = %d after %d pulls", ci, got, pulled)
+				return out, errf("pos", "cycle %d: Pos() = %d after %d pulls", ci, got, pulled), false
 			}
 			it, err := s.Pull()
 			if err == io.EOF {
@@ -227,17 +261,17 @@ func RunWith(h History, s *Sorter, tolerateErrors bool, mark func(string) *Err) 
 				break
 			}
 			if err != nil {
-				return fail(fmt.Sprintf("cycle %d pull %d", ci, pulled), err)
+				return erredOut(fmt.Sprintf("cycle %d pull %d", ci, pulled), err)
 			}
 			if !h.Struct {
 				it.payload, it.extra = "", 0
 			}
 			if pushed[it] == 0 {
-				return out, errf("foreign-value", "cycle %d (%d pushed, chunk %d, spilled=%v): pull %d returned %v which was not pushed in this cycle or was already delivered; delivered so far %v", ci, len(c.Keys), h.Chunk, spilled, pulled, it, out.Delivered[ci])
+				return out, errf("foreign-value", "cycle %d (%d pushed, chunk %d, spilled=%v): pull %d returned %v which was not pushed in this cycle or was already delivered; delivered so far %v", ci, len(c.Keys), h.Chunk, spilled, pulled, it, out.Delivered[ci]), false
 			}
 			pushed[it]--
 			if pulled > 0 && it.key < last {
-				return out, errf("order", "cycle %d: pull %d returned key %d after key %d", ci, pulled, it.key, last)
+				return out, errf("order", "cycle %d: pull %d returned key %d after key %d", ci, pulled, it.key, last), false
 			}
 			last = it.key
 			pulled++
@@ -252,37 +286,37 @@ func RunWith(h History, s *Sorter, tolerateErrors bool, mark func(string) *Err) 
 					}
 				}
 				sort.Ints(missing)
-				return out, errf("lost-values", "cycle %d (%d pushed, chunk %d, spilled=%v): io.EOF after %d values; missing keys %v", ci, len(c.Keys), h.Chunk, spilled, pulled, clip(missing))
+				return out, errf("lost-values", "cycle %d (%d pushed, chunk %d, spilled=%v): io.EOF after %d values; missing keys %v", ci, len(c.Keys), h.Chunk, spilled, pulled, clip(missing)), false
 			}
 			// EOF is stable
 			if _, err := s.Pull(); err != io.EOF {
-				return out, errf("eof-not-stable", "cycle %d: Pull after io.EOF returned %v", ci, err)
+				return out, errf("eof-not-stable", "cycle %d: Pull after io.EOF returned %v", ci, err), false
 			}
 			if mark != nil {
 				if e := mark(fmt.Sprintf("drained %d", ci)); e != nil {
-					return out, e
+					return out, e, false
 				}
 			}
 		} else if want > len(c.Keys) {
-			return out, errf("no-eof", "cycle %d: no io.EOF after %d pulls of %d pushed values", ci, pulled, len(c.Keys))
+			return out, errf("no-eof", "cycle %d: no io.EOF after %d pulls of %d pushed values", ci, pulled, len(c.Keys)), false
 		}
 		last = 0
 		autoCleared := drained && h.AutoClear
 		if c.Clear || !autoCleared || ci == len(h.Cycles)-1 && c.Clear {
 			if ci < len(h.Cycles)-1 || c.Clear {
 				if err := s.M.Clear(); err != nil {
-					return fail(fmt.Sprintf("cycle %d clear", ci), err)
+					return erredOut(fmt.Sprintf("cycle %d clear", ci), err)
 				}
 				autoCleared = true
 			}
 		}
 		if autoCleared {
 			if s.M.Len() != 0 || s.M.Pos() != 0 {
-				return out, errf("len", "cycle %d: Len/Pos = %d/%d after Clear", ci, s.M.Len(), s.M.Pos())
+				return out, errf("len", "cycle %d: Len/Pos = %d/%d after Clear", ci, s.M.Len(), s.M.Pos()), false
 			}
 		}
 	}
-	return out, nil
+	return out, nil, false
 }
 
 func clip(a []int) string {
